@@ -229,6 +229,7 @@ impl Typed for C43 {
             ctx.violate(format!("deadlock:{kind}"), format!("operation never returns: {at}; {d}"));
         }
         ctx.add("probe.schedule_points", res.steps);
+        ctx.add("fault.scheduler_preemption", res.switches);
     }
 
     fn shrink_case(&self, case: &Case) -> Vec<Case> {
